@@ -35,7 +35,8 @@ def flag_tests(fn, flag_calls, mask_bits):
 
 def rule_TR1(rep, prog, k):
     rid = rep.rule("C16-TR1", "dispatch_source_cancel: retain, set DSF_CANCELED with an atomic fetch-or, and wake with MAKE_DIRTY|CONSUME_2 exactly when the bit "
-                   "was newly set (otherwise drop the references)", floor=2)
+                   "was newly set (otherwise drop the references) - evaluated concretely for every combination of DELETED / RELEASED / CANCEL_WAITER in the "
+                   "original flags", floor=10)
     fn = prog.fn("dispatch_source_cancel")
     rep.saw(fn)
     setc = [c for c in calls_named(fn, "_dispatch_queue_atomic_flags_set_orig")] + \
@@ -54,6 +55,26 @@ def rule_TR1(rep, prog, k):
         rep.require(rid, fl is not None and (fl & need) == need, w.loc, fn.name, "cancel-wakeup-flags",
                     "dispatch_source_cancel wakes the source with flags %s; it needs MAKE_DIRTY (a drainer that already sampled the flags must re-evaluate, or the "
                     "cancellation is lost and the cancel handler never runs) and CONSUME_2" % (hex(fl) if fl is not None else None), sample={"flags": fl})
+
+
+    # "exactly when the bit was newly set": evaluated for every combination of the neighbouring flags in the original value
+    if setc and wk:
+        other = [k["DSF_DELETED"], k["DQF_RELEASED"], k["DSF_CANCEL_WAITER"]]
+        for m in range(1 << (len(other) + 1)):
+            orig = (k["DSF_CANCELED"] if m & 1 else 0)
+            for j, b in enumerate(other):
+                if m & (2 << j):
+                    orig |= b
+            hit, _ = concrete_walk(fn, {setc[0].id: orig}, lambda i: i in wk or i in rel)
+            if hit is None:
+                rep.unknown(rid, "dispatch_source_cancel: outcome for original flags %#x is not determined by the flags alone" % orig)
+                continue
+            woke = hit in wk
+            rep.require(rid, woke == (not orig & k["DSF_CANCELED"]), hit.loc, fn.name, "cancel-wakeup-decision:%#x" % orig,
+                        "dispatch_source_cancel with original flags %#x %s: the first cancel of a source - whatever else already happened to it (the library may have "
+                        "unregistered it on its own after a hang-up or a failed registration, DSF_DELETED) - must wake it so that the cancel handler runs and the "
+                        "handlers are disposed; a repeated cancel must not" % (orig, "only drops its references" if not woke else "wakes the source again"),
+                        sample={"orig": orig, "woke": woke})
 
 
 def rule_MP2(rep, prog, k):
@@ -296,6 +317,30 @@ def rule_MP4(rep, prog, k):
                             reload_ops=("load", "cmpxchg", "atomicrmw"), reload_calls=("_dispatch_queue_atomic_flags",))
 
 
+def rule_MP10(rep, prog, k):
+    rid = rep.rule("C16-MP10", "_dispatch_source_registration_callout consumes the registration handler on EVERY path (takes it out of ds_handler[], then either disposes of "
+                   "it - cancelled source - or calls it): the invoke and wakeup functions route a source between its target queue and the manager by testing whether "
+                   "that handler is still present, before they look at cancellation", floor=2)
+    fn = prog.fn("_dispatch_source_registration_callout")
+    rep.saw(fn)
+    takes = [c for c in calls_named(fn, "_dispatch_source_handler_take")] + \
+            [i for i in fn.all_insts() if i.op == "atomicrmw" and i.d.get("rmw") == "xchg" and "ds_handler" in prog.fields(i)]
+    first = next(iter(fn.all_insts()))
+    rets = [i for i in fn.all_insts() if i.op == "ret"]
+    missing = [r for r in rets if first not in takes and fn.inst_reaches(first, r, avoid_insts=takes)]
+    rep.require(rid, bool(takes) and not missing, (missing[0].loc if missing else first.loc), fn.name, "registration-handler-left-in-place",
+                "_dispatch_source_registration_callout can return without having taken the registration handler out of the source: for a source cancelled before the "
+                "handler was delivered, invoke (on the target queue: `go to the manager to unregister`) and invoke (on the manager: `registration handler pending, go "
+                "to the target queue`) bounce the source forever - it is never unregistered, DSF_DELETED is never set and the cancel handler never runs",
+                sample={"takes": [t.loc for t in takes]})
+    for t in takes:
+        uses = [c for c in fn.all_insts() if c.op == "call" and c.callee in ("_dispatch_source_handler_dispose", "_dispatch_continuation_pop", "_dispatch_continuation_free")
+                and any(tuple(root_ptr(fn, o)[:2]) == ("i", t.id) for o in c.ops)]
+        leaked = [r for r in rets if fn.inst_reaches(t, r, avoid_insts=uses)]
+        rep.require(rid, bool(uses) and not leaked, t.loc, fn.name, "registration-handler-leaked",
+                    "the registration handler taken at %s is neither called nor disposed of on some path" % t.loc, sample={"consumers": [u.loc for u in uses]})
+
+
 def rule_MP5(rep, prog, k):
     rid = rep.rule("C16-MP5", "cancelled before activation converges to the same final state: _dispatch_source_activate marks the source installed before it "
                    "finalises the unregistration (DELETED implies installed), so the invoke never registers the descriptor of an already finalised source", floor=2)
@@ -414,6 +459,8 @@ def run(rep, tier="quick", srcdir=None, only=None):
         rule_MP5(rep, prog, k)
     if want("C16-MP6"):
         rule_MP6(rep, prog, k)
+    if want("C16-MP10"):
+        rule_MP10(rep, prog, k)
     if want("C11-MP8"):
         # the uninstall of a cancelled, still armed timer happens on the manager queue only (shared with C11)
         from . import C11
@@ -432,7 +479,7 @@ def run(rep, tier="quick", srcdir=None, only=None):
 
 
 MANIFEST = {
-    "technique": "dominating-condition (edge dominance) and reachability rules over the LLVM IR of source.c / event.c with staleness tracking of flag loads + concrete evaluation of the epoll unregistration over (readers left, writers left, disarmed mask) + value identity between the tested and the waited-on flags word",
+    "technique": "dominating-condition (edge dominance) and reachability rules over the LLVM IR of source.c / event.c with staleness tracking of flag loads + concrete evaluation of the epoll unregistration over (readers left, writers left, disarmed mask) + value identity between the tested and the waited-on flags word + concrete evaluation of the cancel wake-up decision over the original-flags grid, must-pass consumption of the registration handler",
     "level": "the cancel transition and its wakeup flags, the freshness of the cancellation check guarding the event-handler latch, the guards of the cancel "
              "callout and of re-arming, the unregister ordering and the activation obligation of cancel_and_wait are decided structurally; races with event "
              "delivery on the manager thread are covered only through this flag/guard structure, not as an exhaustive interleaving argument",
